@@ -96,11 +96,11 @@ def _execute1(sc, mod, fixed, posmap, log, strict=False, fixed_sched=None, allow
     if sc.mt and posmap is not None and not os.environ.get('XSYM_NO_PRUNE') and not (fixed_sched or fixed_named):
         from . import z3b
         z3b.reset()
-        m.pruner = z3b.Pruner(timeout_ms=int(os.environ.get('XSYM_PRUNE_MS', '3000'))); m.prune_iter = True
+        m.pruner = z3b.Pruner(timeout_ms=int(os.environ.get('XSYM_PRUNE_MS', '15000'))); m.prune_iter = True
     if not sc.mt and getattr(sc, 'prune', False) and not fixed:
         from . import z3b
         z3b.reset()
-        m.pruner = z3b.Pruner(timeout_ms=int(os.environ.get('XSYM_PRUNE_MS', '3000'))); m.prune_iter = True; m.do_restrict = True
+        m.pruner = z3b.Pruner(timeout_ms=int(os.environ.get('XSYM_PRUNE_MS', '15000'))); m.prune_iter = True; m.do_restrict = True
     m.allow_missing = allow_missing
     if fixed_named: m.fixed_named = dict(fixed_named)
     m.fixed_sched = fixed_sched if posmap is not None else None
